@@ -3,6 +3,7 @@ package harness
 import (
 	"context"
 	"fmt"
+	"net"
 	"strings"
 	"time"
 
@@ -20,6 +21,9 @@ type PlanC17 struct {
 	GapMs    []int     `json:"gap_ms"`
 	SrvDelay []int     `json:"srv_delay_ms"`
 	Latency  int       `json:"latency_ms"`
+	// Abort[i] = k > 0: client i resets its connection (RST) right after its k-th message, without
+	// waiting for the replies: the server's writes on that session fail while the others go on
+	Abort []int `json:"abort,omitempty"`
 }
 
 func genC17(t *simrt.Tape, tier string) interface{} {
@@ -34,6 +38,11 @@ func genC17(t *simrt.Tape, tier string) interface{} {
 		p.StartMs = append(p.StartMs, []int{0, 0, 0, 1, 5, 40}[t.Draw(6)])
 		p.NMsg = append(p.NMsg, 1+t.Draw(6))
 		p.GapMs = append(p.GapMs, []int{0, 0, 1, 10}[t.Draw(4)])
+		ab := 0
+		if t.Draw(5) == 0 {
+			ab = 1 + t.Draw(3)
+		}
+		p.Abort = append(p.Abort, ab)
 	}
 	for i := t.Draw(3); i > 0; i-- {
 		p.SrvDelay = append(p.SrvDelay, []int{0, 1, 20}[t.Draw(3)])
@@ -115,6 +124,8 @@ func runC17(w *World, pi interface{}) {
 		done   *Flag
 		err    error
 		ch     *lime.ClientChannel
+
+		aborted bool
 	}
 	cs := make([]*cst, len(p.Clients))
 	for i := range p.Clients {
@@ -176,6 +187,17 @@ func runC17(w *World, pi interface{}) {
 					break
 				}
 				c.sent = append(c.sent, id)
+				if i < len(p.Abort) && p.Abort[i] == j+1 {
+					// gone without a word: the replies under way have nowhere to go
+					c.aborted = true
+					w.Count("client-reset-its-connection")
+					if lk := w.LinkOfLocal(localAddrOf(f.CliTransports[i])); lk != nil {
+						lk.Cut(simnet.CutRST)
+					} else {
+						ch.Close()
+					}
+					return
+				}
 				if i < len(p.GapMs) && p.GapMs[i] > 0 {
 					time.Sleep(time.Duration(p.GapMs[i]) * time.Millisecond)
 				}
@@ -236,7 +258,7 @@ func runC17(w *World, pi interface{}) {
 				w.Violate("C17.envelope-crossed-sessions", sig("reply"), "client %d received %q, which belongs to another session", i, id)
 			}
 		}
-		if len(c.got) < len(c.sent) {
+		if len(c.got) < len(c.sent) && !c.aborted {
 			w.Violate("C17.reply-did-not-reach-originator", sig("reply"), "client %d sent %v and received only %v through the handler's sender", i, c.sent, c.got)
 		}
 	}
@@ -254,8 +276,15 @@ func init() {
 		Gen:    genC17,
 		Run:    runC17,
 		MaxSim: 2 * time.Hour,
-		Rule: "plans = (one server with 1-3 listeners of mixed kinds, 2-6 concurrent real clients over mixed transports with start offsets and per-write latency, registration assigning derived or colliding-looking addresses, 1-6 tagged messages per client, " +
+		Rule: "plans = (one server with 1-3 listeners of mixed kinds, 2-6 concurrent real clients over mixed transports with start offsets and per-write latency, registration assigning derived or colliding-looking addresses, 1-6 tagged messages per client, clients that reset their connection after their k-th message, " +
 			"handler delays; every handler records ContextSessionID/RemoteNode/LocalNode and replies through the Sender it was handed); oracle: context values equal those of the session the envelope was sent on, replies reach the originator and nobody else, " +
 			"announced ids pairwise distinct and known to the server; non-trivial = server started; distinct = distinct (plan JSON, event-log hash)",
 	})
+}
+
+func localAddrOf(t lime.Transport) net.Addr {
+	if t == nil {
+		return nil
+	}
+	return t.LocalAddr()
 }
